@@ -7,14 +7,14 @@ From BioVerif Require Import Model.Ifa.
 
 (* kinds: the configured interfaces (true = passive); evs: device updates addressed to them *)
 Definition survives (kinds : list bool) (evs : list event) : Prop :=
-  exists s, run (init kinds) evs = Ok s.
+  exists s, run head_discipline (init kinds) evs = Ok s.
 
 (* Whenever the last device update of an active interface reported "up" - no matter how many
    ups and downs came before, on this or on other interfaces - the interface sends hellos in
    the next hello interval and frames from a neighbor reach the adjacency code. *)
 Definition hellos_after_up (kinds : list bool) (evs : list event) : Prop :=
   forall s i f,
-    run (init kinds) evs = Ok s ->
+    run head_discipline (init kinds) evs = Ok s ->
     nth_error s i = Some f ->
     passive f = false ->
     last_up evs i false = true ->
@@ -23,7 +23,7 @@ Definition hellos_after_up (kinds : list bool) (evs : list event) : Prop :=
 (* ... and an interface that is passive or whose link is not up stays quiet and deaf *)
 Definition quiet_otherwise (kinds : list bool) (evs : list event) : Prop :=
   forall s i f,
-    run (init kinds) evs = Ok s ->
+    run head_discipline (init kinds) evs = Ok s ->
     nth_error s i = Some f ->
     passive f = true \/ last_up evs i false = false ->
     sends_hellos f = false /\ can_form_adjacency f = false.
